@@ -257,6 +257,10 @@ func runC14(r *h.Run) {
 			if !s2.Hung && s2.Err == nil {
 				r.Violate("incompatible-accepted", ctx+" expect="+expect+" second-start", fmt.Sprintf("the first Start refused the plugin (%v), the second Start on the same client succeeded", so.Err))
 			}
+			if expect == "start-error:mux-unsupported" && s2.Err != nil && !errors.Is(s2.Err, plugin.ErrGRPCBrokerMuxNotSupported) {
+				// asked again, the client still fails with the dedicated error
+				r.Violate("wrong-error", ctx+" expect="+expect+" second-start", s2.Err.Error())
+			}
 			if p := cl.Protocol(); p != plugin.ProtocolInvalid && s2.Err != nil {
 				r.Violate("incompatible-accepted", ctx+" expect="+expect+" protocol-after-refusal", fmt.Sprintf("a client whose Start was refused reports protocol %q", p))
 			}
